@@ -45,7 +45,7 @@ def build_world(root, cube, K, ulo, uhi, nd, c, fmt, memmap, r, distance_unit='k
     # the unit in which the aperture radii are handed to the fitter (arcsec, arcmin or degrees).  Another unit costs the request
     # theta*d one ulp, so such worlds get one extra, smaller tabulated radius below every request (it changes no interpolated value)
     ap_unit = 'arcsec' if (rc is not None or remove_resolved) else ['arcsec', 'arcmin', 'deg'][(hv // 5) % 3]
-    tab_unit = 'au' if (rc is not None or remove_resolved) else ['au', 'pc', 'cm'][(hv // 15) % 3]      # unit of the tabulated radii
+    tab_unit = 'au' if (rc is not None or remove_resolved) else ['au', 'pc', 'cm', 'kpc'][(hv // 15) % 4]      # unit of the tabulated radii
     rc = rc or recipes(c, nd, r)
     wavs = fw.band_wavelengths(nbands)
     os.makedirs(os.path.join(d, 'convolved'))
